@@ -400,9 +400,9 @@ def build(U):
 
     # ---- AsInput ---------------------------------------------------------------------------------------------------
     tr = U.block_item(F, r"pub trait AsInput<'i>", 'trait AsInput', std=False).drop_attrs()
-    tr.prepend_in_block("    // what the conversion must produce: the sub-input's bounds; `valid` = the value's own invariant\n    spec fn as_ctx(&self) -> Ctx<'i>;\n    spec fn valid(&self) -> bool;")
+    tr.prepend_in_block(P.ASINPUT_SPECS)
     tr.ret('r', fname='as_input')
-    tr.contract('        requires self.valid(),\n        ensures r.ctx() == self.as_ctx(), r.off() == self.as_ctx().start, input_inv(r.ctx(), r.off()),', fname='as_input')
+    tr.contract(P.ASINPUT_CONTRACT, fname='as_input')
     U.emit(tr)
     for hdr, ctx_spec, valid in [
         ("AsInput<'i> for &'i str", "Ctx { input: *self, start: 0, end: self.spec_bytes().len() }", 'true'),
